@@ -32,7 +32,21 @@ fn leaf_pool() -> Vec<T> {
         T::MultiA(2, vec!["K5".into(), "K6".into(), "K7".into()]),
         T::AndV(Box::new(T::Verify(Box::new(pk("K8")))), Box::new(T::Sha256("H1".into()))),
         T::OrD(Box::new(pk("K9")), Box::new(T::AndV(Box::new(T::Verify(Box::new(pk("K10")))), Box::new(T::After(10))))),
-        T::SortedMultiA(1, vec!["K11".into(), "K12".into()]),
+        // two keys whose x-only order differs from the order of their 33-byte serializations
+        {
+            let pool: Vec<String> = (14..60).map(|i| format!("K{}", i)).collect();
+            let mut pick = ("K11".to_string(), "K12".to_string());
+            'outer: for a in &pool {
+                for b in &pool {
+                    let (ka, kb) = (key(a), key(b));
+                    if ka.x32() < kb.x32() && ka.compressed() > kb.compressed() {
+                        pick = (b.clone(), a.clone());
+                        break 'outer;
+                    }
+                }
+            }
+            T::SortedMultiA(1, vec![pick.0, pick.1])
+        },
         pk("K13"),
     ]
 }
@@ -98,6 +112,19 @@ fn check_tree(rep: &Report, cen: &mut Census, ik: &str, shape: &Shape, leaves_t:
             return;
         }
     };
+    // build 4: the same tree over full (33-byte, parity-carrying) keys commits to the same output:
+    // taproot scripts only ever see the x coordinate
+    match guard(|| build_desc::<bitcoin::PublicKey>(&d, &crate::keys::PkEnv { form: crate::keys::KeyForm::Compressed })) {
+        Ok(Ok(b4)) => {
+            if b4.script_pubkey() != b1.script_pubkey() {
+                viol("full-key-build-differs", format!("built over 33-byte keys the output is {} but over x-only keys {}", b4.script_pubkey(), b1.script_pubkey()));
+            } else {
+                bump(cen, "full_key_builds_equal");
+            }
+        }
+        Ok(Err(e)) => viol("full-key-build-refused", e),
+        Err(p) => viol("full-key-build-panics", p),
+    }
     // Display -> FromStr
     match guard(|| Descriptor::<String>::from_str(&b2.to_string())) {
         Ok(Ok(x)) => {
